@@ -362,7 +362,8 @@ class Symbol(LExprTerminal):
 class MultiIndex(LExpr):
     """A multi-index for accessing tensors flattened in memory."""
 
-    precedence = PRECEDENCE.SYMBOL
+    # Formatted as its global_index (a Sum), so it must be parenthesised like one when used as an operand
+    precedence = PRECEDENCE.ADD
 
     def __init__(self, symbols: list, sizes: list):
         """Initialise."""
